@@ -818,6 +818,13 @@ def r9_empty_cluster_rejected(ctx):
                 seen = True
             if a[0] == 'bool' and a[2] is False and a[1][0] == 'call' and a[1][1].split('::')[-1] == 'eq' and any(x[0] == 'field' and x[2] == 'kardinality' for x in walk(a[1])) and zero_cluster(a[1]):
                 seen = True
+            # `matches!(field.kardinality, Kardinality::Cluster(0))` taken apart: not a cluster at all, or a cluster whose size is not 0
+            if a[0] == 'is' and peel(a[1])[0] == 'field' and peel(a[1])[2] == 'kardinality' and isinstance(a[2], str) and a[2] != 'Cluster':
+                seen = True
+            if a[0] == 'cmp' and a[1] == 'ne' and ('int', 0) in (a[2], a[3]):
+                o = peel(a[3] if a[2] == ('int', 0) else a[2])
+                if o[0] == 'field' and o[2] == '0' and peel(o[1])[0] == 'as' and peel(o[1])[2] == 'Cluster' and any(x[0] == 'field' and x[2] == 'kardinality' for x in walk(o)):
+                    seen = True
         ctx.check(seen, 'empty-cluster-rejected', 'a submodule is only elaborated after its cluster size was found to be non-zero', f.where_path(path))
         # a type applied to arguments elaborates only with exactly as many arguments as it has parameters (too few would leave
         # placeholders in the network, too many would be dropped silently)
